@@ -4,9 +4,10 @@ tie B: harness/c09/seq_dsaa.c against the real avl_tree.c / hash_table.c / trie.
 memory_pool.c (malloc and node-pool variants)."""
 import itertools
 import os
+import re
 import vlib
 
-PROOFS = ["MgProof.C09.AvlLemmas", "MgProof.C09.AvlInsert", "MgProof.C09.AvlRemove", "MgProof.C09.AvlCheck",
+PROOFS = ["MgProof.C09.AvlLemmas", "MgProof.C09.AvlInsert", "MgProof.C09.AvlRemove", "MgProof.C09.AvlCheck", "MgProof.C09.AvlParent",
           "MgProof.C09.HashLemmas", "MgProof.C09.TrieLemmas", "MgProof.C09.MapLemmas",
           "MgProof.C09.Props"]
 GREP = ["MgModel/C09", "MgProof/C09", "MgModel/Common", "Drv/C09.lean"]
@@ -16,10 +17,11 @@ REPO_SRCS = ["muggle/c/dsaa/avl_tree.c", "muggle/c/dsaa/hash_table.c", "muggle/c
 TRUSTED = [
     "Lean 4.33 kernel; axioms as printed by the audit (subset of propext, Classical.choice, Quot.sound)",
     "tie B: harness/c09/seq_dsaa.c + lib/vlib.py comparison: after every operation the real pointer "
-    "structure is dumped (AVL: pre-order key/value/balance/shape + parent links; hash: chains in order + "
-    "prev links; trie: every node) and must equal the model's dump",
-    "the functional AVL model has no parent pointers: parent-link consistency is checked on the real "
-    "structure by the harness (achk/adump), not proved",
+    "structure is dumped (AVL: pre-order key/value/balance/node identity/parent pointer/shape; hash: chains "
+    "in order + prev links; trie: every node) and must equal the model's dump",
+    "hash chains are modelled as lists: consistency of the prev links is checked on the real structure by "
+    "the harness (hdump), not proved; AVL node identity = allocation number assigned by the harness to the "
+    "pointer returned by insert",
     "node allocation (malloc or muggle_memory_pool) is assumed to succeed and to return distinct blocks "
     "(pool correctness is C06); both variants are run against the same model",
     "AVL keys modelled as Int with the usual order (the C comparator is a user-supplied total order); "
@@ -85,7 +87,8 @@ def avl_exhaustive(ctx, hcmd, dcmd):
     shapes = {}
     for p, r in zip(perms, res):
         if r["crash"] is None and r["out"]:
-            shapes.setdefault((len(p), r["out"][-1]), p)
+            # shape = keys and balances; node identities / parent ids differ per insertion order
+            shapes.setdefault((len(p), re.sub(r" #\d+ \^\S+", "", r["out"][-1])), p)
     ctx.cov["avl_shapes"] = len(shapes)
     casesB = []
     big = []
